@@ -143,10 +143,26 @@ Definition expect_replay (ds : list pdesc) (life : Z -> Z) (node uid : Z) : opti
   if (life uid =? 2) && (d_node (desc_of ds uid) =? node) && negb (empty_alloc (written ds uid))
   then Some (written ds uid) else None.
 
-Definition eq_numa (a b : list (Z * (Z * Z))) : bool :=
-  eq_listZ (enc_numa a) (enc_numa b).
+Fixpoint eq_numa (a b : list (Z * (Z * Z))) : bool :=
+  match a, b with
+  | [], [] => true
+  | x :: a', y :: b' => (fst x =? fst y) && eq_pair (snd x) (snd y) && eq_numa a' b'
+  | _, _ => false
+  end.
 Definition eq_alloc (a b : list Z * list (Z * (Z * Z))) : bool :=
   eq_listZ (fst a) (fst b) && eq_numa (snd a) (snd b).
+Definition eq_opt_alloc (a b : option (list Z * list (Z * (Z * Z)))) : bool :=
+  match a, b with
+  | None, None => true
+  | Some x, Some y => eq_alloc x y
+  | _, _ => false
+  end.
+Fixpoint all2 {A} (f : A -> A -> bool) (a b : list A) : bool :=
+  match a, b with
+  | [], [] => true
+  | x :: a', y :: b' => f x y && all2 f a' b'
+  | _, _ => false
+  end.
 
 (* clause of one listed pod against its expectation: 0 ok, 1 lost, 2 phantom, 3 different value *)
 Definition pod_clause (exp got : option (list Z * list (Z * (Z * Z)))) : Z :=
@@ -162,8 +178,7 @@ Definition pods_clause (exp : Z -> Z -> option (list Z * list (Z * (Z * Z)))) (n
   first_nz (map (fun ue => pod_clause (exp node (fst ue)) (snd ue))
                 (combine (zrange 1 (length (sn_pods s))) (sn_pods s))).
 
-Definition same_pods (a b : nsnap) : bool :=
-  eq_listZ (flat_map enc_pod (sn_pods a)) (flat_map enc_pod (sn_pods b)).
+Definition same_pods (a b : nsnap) : bool := all2 eq_opt_alloc (sn_pods a) (sn_pods b).
 Definition same_excl (a b : nsnap) : bool :=
   eq_listZ (map snd (sn_cpus a)) (map snd (sn_cpus b)).
 
@@ -176,8 +191,13 @@ Definition shape_ok (u : universe) (s : list nsnap) : bool :=
                        && (Z.of_nat (length (sn_cpus n)) =? u_ncpu u)
                        && (Z.of_nat (length (sn_numa n)) =? u_nnuma u)) s.
 
-(* one cut: live snapshot L, rebuilt snapshot R, life cycle at the cut *)
-Definition step_code (c : ncase) (life : Z -> Z) (LR : list nsnap * list nsnap) : Z :=
+(* one cut: live snapshot L, rebuilt snapshot R, life cycle at the cut.
+   core clauses: 9 malformed, 6 the live cache does not list exactly the assumed and bound objects
+   with the values chosen, 1 a bound allocation is missing after the restart, 2 the rebuilt cache
+   lists something that is not bound, 3 it lists a different value than was written, 4 / 5 the
+   rebuilt / live aggregates (cpu reference counts, per-NUMA amounts, NUMA marks) are not the
+   from-scratch ledger of the listed allocations *)
+Definition step_core (c : ncase) (life : Z -> Z) (LR : list nsnap * list nsnap) : Z :=
   let u := universe_of c in
   let ds := c_descs c in
   let '(L, R) := LR in
@@ -188,11 +208,22 @@ Definition step_code (c : ncase) (life : Z -> Z) (LR : list nsnap * list nsnap) 
   let cl_rep := first_nz (map (fun ns => pods_clause (expect_replay ds life) (fst ns) (snd ns)) (combine nodes R)) in
   if negb (cl_rep =? 0) then cl_rep else
   if negb (forallb (ledger_ok (c_topo c) (u_npods u)) R) then 4 else
-  if negb (forallb (ledger_ok (c_topo c) (u_npods u)) L) then 5 else
+  if negb (forallb (ledger_ok (c_topo c) (u_npods u)) L) then 5 else 0.
+(* exclusive-policy clauses: 7 a cpu's mark is not the policy of one of its holders (or not
+   cleared), 8 both caches list the same allocations but mark a cpu differently *)
+Definition step_excl (c : ncase) (LR : list nsnap * list nsnap) : Z :=
+  let ds := c_descs c in
+  let '(L, R) := LR in
   if negb (forallb (fun s => excl_agree (pol_of ds) (snap_pods s) (sn_cpus s)) (L ++ R)) then 7 else
   if negb (forallb (fun lr => negb (same_pods (fst lr) (snd lr)) || same_excl (fst lr) (snd lr)) (combine L R)) then 8
   else 0.
+Definition step_code (c : ncase) (life : Z -> Z) (LR : list nsnap * list nsnap) : Z :=
+  let k := step_core c life LR in if k =? 0 then step_excl c LR else k.
 
+Definition prop_numa_core (c : ncase) (obs : list (list nsnap * list nsnap)) : Z :=
+  if negb (Nat.eqb (length obs) (length (c_ops c))) then 9
+  else first_nz (map (fun lo => step_core c (fst lo) (snd lo))
+                     (combine (lives c live_init (c_ops c)) obs)).
 Definition prop_numa (c : ncase) (obs : list (list nsnap * list nsnap)) : Z :=
   if negb (Nat.eqb (length obs) (length (c_ops c))) then 9
   else first_nz (map (fun lo => step_code c (fst lo) (snd lo))
@@ -219,7 +250,8 @@ Definition desc_ok (d : pdesc) : bool :=
   forallb cpu_ok (d_cpus d)
   && forallb (fun e => (0 <=? fst (snd e)) && (0 <=? snd (snd e))) (d_numa d)
   && (1 <=? d_node d).
-Definition case_ok (c : ncase) : bool := forallb desc_ok (c_descs c) && c_topo_first c.
+Definition case_ok (c : ncase) : bool :=
+  forallb desc_ok (c_descs c) && c_topo_first c && (0 <=? c_nodes c) && (0 <=? t_ncpu (c_topo c)).
 
 (* objects that ever share a cpu on a node ask for the same exclusive policy *)
 Definition share_cpu (a b : pdesc) : bool :=
